@@ -1,14 +1,8 @@
 /-
-C03 at character level, lexer part 2: what `PreNextToken` does between the tokens of a canonical rendering.
-
-`bst src ity dn s k pos` is the lexer between two tokens: the lines `dn` are complete (their `LineText` is set), the current line
-starts at `s` with indentation `k` (its `LineText` still nil), the cursor is at `pos`.
-
- * `nextToken_space`  — cursor on the space between two tokens of a line: the space is skipped, the next item's token is answered;
- * `skipBlank_break`  — cursor on the line feed that ends a line: `parseLine` slices the line just left, appends the next line with
-                        the number of TABs it starts with (setting `IndentType` to TAB at the first indented line), stops on the first
-                        character after the TABs;
- * `nextToken_break`, `nextToken_eof`, `nextToken_eof_again`, `nextToken_first` — the four places a token is read from.
+C03 at character level, lexer side, shared pieces: the lexer by its fields with the line table as a list (`lx`), the lexer between two
+tokens (`bst src ity dn s k pos`: the lines `dn` are behind, the current line starts at `s` with indentation `k` and its `LineText` is
+still nil, the cursor is at `pos`), and small facts about `lastLineStart`, `parseLine`, `parseEOF`.
+(What `PreNextToken` does on blanks and line breaks: Proofs/RenderGapLayout.lean.)
 -/
 import ZnVerif.Proofs.RenderLexItems
 
@@ -27,9 +21,6 @@ def lx (src : Array Nat) (ity : Nat) (lines : List LineInfo) (pos : Nat) (bl : B
 def bst (src : Array Nat) (ity : Nat) (dn : List LineInfo) (s k pos : Nat) : Lexer :=
   lx src ity (dn ++ [openLine s k]) pos false
 
-/-- the lexer after the EOF token: every line complete, the last one empty -/
-def fst (src : Array Nat) (ity : Nat) (dn : List LineInfo) (pos : Nat) : Lexer :=
-  lx src ity (dn ++ [closedLine pos 0 pos]) pos false
 
 theorem here_headD {l : Lexer} {tl : List Nat} (h : here l = tl) : l.cur = tl.headD 0 := by
   cases tl with
@@ -45,140 +36,12 @@ theorem modify_last {α : Type} (xs : List α) (c : α) (f : α → α) : (xs ++
   | nil => rfl
   | cons x xs ih => simp [ih]
 
-/-! ### spaces -/
-
-theorem parseSpaces_one (l : Lexer) (h1 : isWhiteSpace l.cur = true) (h2 : isWhiteSpace l.adv.cur = false) :
-    parseSpaces l = l.adv := by
-  rw [parseSpaces]
-  simp only [h1, ↓reduceDIte]
-  rw [parseSpaces]
-  simp [h2]
-
-theorem skipBlank_space (l : Lexer) (c : Nat) (r : List Nat) (h : here l = runeSP :: c :: r) (hc : Solid c) :
-    skipBlank l = (.ok (), l.adv) := by
-  obtain ⟨h1, h2⟩ := here_cons h
-  have h3 : l.adv.cur = c := (Lexer.rest_cons h2).1
-  unfold skipBlank
-  have hstep : skipBlankStep l () = (.cont (), l.adv) := by
-    unfold skipBlankStep
-    have a1 : isWhiteSpace l.cur = true := by rw [h1]; decide
-    simp only [a1, ↓reduceIte]
-    rw [parseSpaces_one l a1 (by rw [h3]; exact hc.1)]
-  rw [iterate_cont hstep]
-  exact skipBlank_solid l.adv (by rw [h3]; exact hc)
-
-/-- **a token after a space** -/
-theorem nextToken_space (it : Item) (hw : it.WF) (l : Lexer) (hb : l.beginLex = false) (d : Nat) (r : List Nat)
-    (hd : d = runeSP ∨ (d = runeLF ∧ it.tight = false)) (h : here l = runeSP :: (it.spelling ++ d :: r)) :
-    nextToken l = (.ok (it.token (l.cursor + 1)), l.setCursor (l.cursor + 1 + it.spelling.length)) := by
-  obtain ⟨c, sp, hsp, hsolid, _, _⟩ := spelling_head it hw
-  have h' : here l = runeSP :: c :: (sp ++ d :: r) := by rw [h, hsp]; simp
-  have hs := skipBlank_space l c _ h' hsolid
-  unfold nextToken preNextToken
-  simp only [hb, Bool.false_eq_true, ↓reduceIte, hs]
-  have hh : here l.adv = it.spelling ++ d :: r := by
-    rw [here_adv]; exact (here_cons h).2
-  rw [dispatch_item it hw l.adv d r hd hh]
-  rfl
-
-/-! ### line breaks -/
-
-theorem countSame_tabs (j : Nat) : ∀ (l : Lexer) (n : Nat) (tl : List Nat), l.rest = List.replicate j runeTAB ++ tl →
-    tl.headD 0 ≠ runeTAB → countSame runeTAB l n = (l.setCursor (l.cursor + 1 + j), n + j) := by
-  induction j with
-  | zero =>
-    intro l n tl h ht
-    have hp : l.adv.cur = tl.headD 0 := rest_headD (by simpa using h)
-    rw [countSame]
-    have : (l.adv.cur == runeTAB && l.adv.cur != 0) = false := by
-      rw [hp]
-      have : (tl.headD 0 == runeTAB) = false := by simpa using ht
-      rw [this]; rfl
-    simp only [this, Bool.false_eq_true, ↓reduceDIte]
-    rfl
-  | succ j ih =>
-    intro l n tl h ht
-    have h' : l.rest = runeTAB :: (List.replicate j runeTAB ++ tl) := by simpa [List.replicate_succ] using h
-    obtain ⟨hp, hr⟩ := Lexer.rest_cons h'
-    have hcur : l.adv.cur = runeTAB := hp
-    rw [countSame]
-    have : (l.adv.cur == runeTAB && l.adv.cur != 0) = true := by rw [hcur]; decide
-    simp only [this, ↓reduceDIte]
-    rw [ih l.adv (n + 1) tl hr ht]
-    simp [Lexer.setCursor, Lexer.adv]
-    omega
-
-/-- the indent type after a line with `k` TABs -/
-def ityAfter (ity k : Nat) : Nat := if k = 0 then ity else cIndentTab
-
-/-- `IndentType` is TAB, or still unknown and no line so far is indented -/
-def ItyOK (ity k : Nat) : Prop := ity = cIndentTab ∨ (ity = cIndentUnknown ∧ k = 0)
-
-theorem ItyOK.after {ity k : Nat} (h : ItyOK ity k) (k' : Nat) : ItyOK (ityAfter ity k') k' := by
-  unfold ityAfter
-  by_cases hk : k' = 0
-  · simp only [hk, ↓reduceIte]
-    rcases h with h | ⟨h, _⟩
-    · exact Or.inl h
-    · exact Or.inr ⟨h, rfl⟩
-  · simp only [hk, ↓reduceIte]; exact Or.inl rfl
-
-theorem ItyOK.cases {ity k : Nat} (h : ItyOK ity k) : ity = cIndentTab ∨ ity = cIndentUnknown := h.imp id (·.1)
-
-/-- `setIndentType` after the TABs (or none) of a new line -/
-theorem setIndentType_tabs (l : Lexer) (k c : Nat) (hity : l.indentType = cIndentTab ∨ l.indentType = cIndentUnknown)
-    (hc : c ≠ runeTAB ∧ c ≠ runeSP) :
-    setIndentType l k (if k = 0 then c else runeTAB) = (.ok k, { l with indentType := ityAfter l.indentType k }) := by
-  obtain ⟨src, ity, lines, cursor, bl⟩ := l
-  dsimp only at hity
-  by_cases hk : k = 0
-  · subst hk
-    have hkind : indentKind c = cIndentUnknown := by
-      unfold indentKind
-      have a1 : (c == runeTAB) = false := by simpa using hc.1
-      have a2 : (c == runeSP) = false := by simpa using hc.2
-      simp [a1, a2]
-    unfold setIndentType setIndentTypeLexer
-    simp only [↓reduceIte, hkind, ityAfter]
-    rcases hity with h | h <;> subst h <;> simp [cIndentUnknown, cIndentTab, cIndentSpace]
-  · have hkind : indentKind runeTAB = cIndentTab := by decide
-    unfold setIndentType setIndentTypeLexer
-    simp only [hk, ↓reduceIte, hkind, ityAfter]
-    rcases hity with h | h <;> subst h <;> simp [cIndentUnknown, cIndentTab, cIndentSpace]
-
 theorem lastLineStart_lx (src : Array Nat) (ity : Nat) (dn : List LineInfo) (c : LineInfo) (pos : Nat) (bl : Bool) :
     lastLineStart (lx src ity (dn ++ [c]) pos bl) =
       some (if ity == cIndentSpace then c.startIdx + 4 * c.indents
         else if ity == cIndentTab then c.startIdx + c.indents else c.startIdx) := by
   unfold lastLineStart lx
   simp
-
-theorem sliceLastLine_bst (src : Array Nat) (ity : Nat) (dn : List LineInfo) (s k pos e : Nat) (bl : Bool)
-    (hity : ItyOK ity k) (h1 : s + k ≤ e) (h2 : e ≤ src.size) :
-    sliceLastLine (lx src ity (dn ++ [openLine s k]) pos bl) e = some (lx src ity (dn ++ [closedLine s k e]) pos bl) := by
-  have hstart : lastLineStart (lx src ity (dn ++ [openLine s k]) pos bl) = some (s + k) := by
-    rw [lastLineStart_lx]
-    rcases hity with h | ⟨h, hk⟩
-    · subst h; simp [cIndentTab, cIndentSpace, openLine]
-    · subst h; subst hk; simp [cIndentUnknown, cIndentTab, cIndentSpace, openLine]
-  unfold sliceLastLine
-  rw [hstart]
-  have hcond : (decide (s + k > e) || decide (e > (lx src ity (dn ++ [openLine s k]) pos bl).src.size)) = false := by
-    simp [lx]; omega
-  simp only [hcond, Bool.false_eq_true, ↓reduceIte]
-  simp only [lx, List.size_toArray, List.length_append, List.length_cons, List.length_nil, Nat.zero_add,
-    Nat.add_one_sub_one, List.modify_toArray, modify_last, openLine, closedLine]
-
-theorem parseLineBody_eq (ch : Nat) (l l3 r1 r2 : Lexer) (n' n : Nat)
-    (hpair : ((ch == runeCR && l.adv.cur == runeLF) || (ch == runeLF && l.adv.cur == runeCR)) = false)
-    (hslice : sliceLastLine l.adv l.cursor = some l3)
-    (hcount : (if l.adv.cur == runeSP || l.adv.cur == runeTAB
-        then countSame l.adv.cur (l3.pushLine { indents := 0, startIdx := l3.cursor }) 1
-        else (l3.pushLine { indents := 0, startIdx := l3.cursor }, 0)) = (r1, n'))
-    (hset : setIndentType r1 n' l.adv.cur = (.ok n, r2)) :
-    parseLineBody ch true l = (.ok (), setLastIndents r2 n) := by
-  unfold parseLineBody
-  simp only [hpair, Bool.false_eq_true, ↓reduceIte, hslice, hcount, hset]
 
 theorem parseLine_once (ch : Nat) (l l' : Lexer) (h : parseLineBody ch true l = (.ok (), l'))
     (hc : (l'.cur == runeCR || l'.cur == runeLF) = false) : parseLine ch true l = (.ok (), l') := by
@@ -188,281 +51,12 @@ theorem parseLine_once (ch : Nat) (l l' : Lexer) (h : parseLineBody ch true l = 
   rw [h]
   simp only [hc, Bool.false_eq_true, ↓reduceIte]
 
-theorem skipBlank_line (l l' : Lexer) (hcur : l.cur = runeLF) (h : parseLine runeLF true l = (.ok (), l')) (hs : Solid l'.cur) :
-    skipBlank l = (.ok (), l') := by
-  unfold skipBlank
-  have hstep : skipBlankStep l () = (.cont (), l') := by
-    unfold skipBlankStep
-    rw [hcur]
-    have a1 : isWhiteSpace runeLF = false := by decide
-    have a2 : (runeLF == runeCR || runeLF == runeLF) = true := by decide
-    simp only [a1, a2, Bool.false_eq_true, ↓reduceIte, h]
-  rw [iterate_cont hstep]
-  exact skipBlank_solid _ hs
-
-/-- the new line's indentation: the TABs are counted (none: nothing is consumed) -/
-theorem count_tabs (l : Lexer) (k' : Nat) (tl : List Nat) (h : here l = List.replicate k' runeTAB ++ tl)
-    (htl : tl.headD 0 ≠ runeTAB ∧ tl.headD 0 ≠ runeSP) :
-    (if l.cur == runeSP || l.cur == runeTAB then countSame l.cur l 1 else (l, 0)) = (l.setCursor (l.cursor + k'), k') := by
-  cases k' with
-  | zero =>
-    have hc : l.cur = tl.headD 0 := here_headD (by simpa using h)
-    have : (l.cur == runeSP || l.cur == runeTAB) = false := by
-      rw [hc]
-      generalize tl.headD 0 = x at htl
-      simp [htl.1, htl.2]
-    simp only [this, Bool.false_eq_true, ↓reduceIte]
-    rfl
-  | succ j =>
-    have h' : here l = runeTAB :: (List.replicate j runeTAB ++ tl) := by simpa [List.replicate_succ] using h
-    obtain ⟨hc, hr⟩ := here_cons h'
-    rw [hc]
-    have : (runeTAB == runeSP || runeTAB == runeTAB) = true := by decide
-    simp only [this, ↓reduceIte]
-    rw [countSame_tabs j l 1 tl hr htl.1]
-    congr 1
-    · apply setCursor_congr; omega
-    · omega
-
-/-- **the line feed that ends a line** -/
-theorem skipBlank_break (src : Array Nat) (ity : Nat) (dn : List LineInfo) (s k pos k' : Nat) (tl : List Nat)
-    (hity : ItyOK ity k) (hpos : s + k ≤ pos)
-    (h : here (bst src ity dn s k pos) = runeLF :: (List.replicate k' runeTAB ++ tl))
-    (htl : Solid (tl.headD 0) ∧ tl.headD 0 ≠ runeTAB) :
-    skipBlank (bst src ity dn s k pos) =
-      (.ok (), bst src (ityAfter ity k') (dn ++ [closedLine s k pos]) (pos + 1) k' (pos + 1 + k')) := by
-  have hsp : tl.headD 0 ≠ runeSP := by intro e; have := htl.1.1; rw [e] at this; revert this; decide
-  obtain ⟨hcur, hrest⟩ := here_cons h
-  have hsize : pos < src.size := by
-    have : (here (bst src ity dn s k pos)).length ≠ 0 := by rw [h]; simp
-    simp [here, bst, lx] at this; omega
-  -- the first character of the next line
-  have hchn : (bst src ity dn s k pos).adv.cur = (if k' = 0 then tl.headD 0 else runeTAB) := by
-    show (bst src ity dn s k pos).peek = _
-    rw [rest_headD hrest]
-    cases k' with
-    | zero => simp
-    | succ j => simp [List.replicate_succ]
-  have hchn_ne : (if k' = 0 then tl.headD 0 else runeTAB) ≠ runeCR ∧ (if k' = 0 then tl.headD 0 else runeTAB) ≠ runeLF := by
-    by_cases hk : k' = 0
-    · simp only [hk, ↓reduceIte]; exact ⟨htl.1.2.1, htl.1.2.2⟩
-    · simp only [hk, ↓reduceIte]; exact ⟨by decide, by decide⟩
-  have hpair : ((runeLF == runeCR && (bst src ity dn s k pos).adv.cur == runeLF) ||
-      (runeLF == runeLF && (bst src ity dn s k pos).adv.cur == runeCR)) = false := by
-    rw [hchn]
-    generalize (if k' = 0 then tl.headD 0 else runeTAB) = x at hchn_ne
-    have a : (x == runeCR) = false := by simpa using hchn_ne.1
-    rw [a]
-    cases (x == runeLF) <;> rfl
-  have hslice : sliceLastLine (bst src ity dn s k pos).adv (bst src ity dn s k pos).cursor =
-      some (lx src ity (dn ++ [closedLine s k pos]) (pos + 1) false) :=
-    sliceLastLine_bst src ity dn s k (pos + 1) pos false hity hpos (by omega)
-  -- the lexer with the new line appended, on the first character of that line
-  have hl4 : ((lx src ity (dn ++ [closedLine s k pos]) (pos + 1) false).pushLine
-      { indents := 0, startIdx := (lx src ity (dn ++ [closedLine s k pos]) (pos + 1) false).cursor }) =
-      bst src ity (dn ++ [closedLine s k pos]) (pos + 1) 0 (pos + 1) := by
-    simp [Lexer.pushLine, bst, lx, openLine]
-  have hl4here : here (bst src ity (dn ++ [closedLine s k pos]) (pos + 1) 0 (pos + 1)) = List.replicate k' runeTAB ++ tl := hrest
-  have hl4cur : (bst src ity (dn ++ [closedLine s k pos]) (pos + 1) 0 (pos + 1)).cur = (bst src ity dn s k pos).adv.cur := rfl
-  have hcount := count_tabs _ k' tl hl4here ⟨htl.2, hsp⟩
-  rw [hl4cur] at hcount
-  have hr1 : (bst src ity (dn ++ [closedLine s k pos]) (pos + 1) 0 (pos + 1)).setCursor
-      ((bst src ity (dn ++ [closedLine s k pos]) (pos + 1) 0 (pos + 1)).cursor + k') =
-      bst src ity (dn ++ [closedLine s k pos]) (pos + 1) 0 (pos + 1 + k') := rfl
-  rw [hr1] at hcount
-  have hset := setIndentType_tabs (bst src ity (dn ++ [closedLine s k pos]) (pos + 1) 0 (pos + 1 + k')) k' (tl.headD 0)
-    hity.cases ⟨htl.2, hsp⟩
-  rw [← hchn] at hset
-  have hbody := parseLineBody_eq runeLF (bst src ity dn s k pos) _ _ _ k' k' hpair hslice (by rw [hl4]; exact hcount) hset
-  have hfinal : setLastIndents { bst src ity (dn ++ [closedLine s k pos]) (pos + 1) 0 (pos + 1 + k') with
-      indentType := ityAfter (bst src ity (dn ++ [closedLine s k pos]) (pos + 1) 0 (pos + 1 + k')).indentType k' } k' =
-      bst src (ityAfter ity k') (dn ++ [closedLine s k pos]) (pos + 1) k' (pos + 1 + k') := by
-    simp only [setLastIndents, bst, lx, List.size_toArray, List.length_append, List.length_cons, List.length_nil,
-      Nat.zero_add, Nat.add_one_sub_one, List.modify_toArray]
-    have := modify_last (dn ++ [closedLine s k pos]) (openLine (pos + 1) 0) (fun li => { li with indents := k' })
-    simp only [List.length_append, List.length_cons, List.length_nil, Nat.zero_add] at this
-    rw [this]
-    rfl
-  rw [hfinal] at hbody
-  -- the cursor ends on a solid character
-  have hcur' : (bst src (ityAfter ity k') (dn ++ [closedLine s k pos]) (pos + 1) k' (pos + 1 + k')).cur = tl.headD 0 := by
-    apply here_headD
-    have : here (bst src (ityAfter ity k') (dn ++ [closedLine s k pos]) (pos + 1) k' (pos + 1 + k')) =
-        (here (bst src ity dn s k pos)).drop (k' + 1) := by
-      show src.toList.drop (pos + 1 + k') = (src.toList.drop pos).drop (k' + 1)
-      rw [List.drop_drop]; congr 1; omega
-    rw [this, h, List.drop_succ_cons]
-    exact List.drop_left' (by simp)
-  have hline := parseLine_once runeLF _ _ hbody (by
-    rw [hcur']
-    have a1 : (tl.headD 0 == runeCR) = false := by simpa using htl.1.2.1
-    have a2 : (tl.headD 0 == runeLF) = false := by simpa using htl.1.2.2
-    rw [a1, a2]; rfl)
-  exact skipBlank_line _ _ hcur hline (by rw [hcur']; exact htl.1)
-
 theorem solid_zero : Solid 0 ∧ (0 : Nat) ≠ runeTAB := ⟨⟨by decide, by decide, by decide⟩, by decide⟩
-
-theorem nextToken_of_skipBlank (l l' : Lexer) (hb : l.beginLex = false) (h : skipBlank l = (.ok (), l')) :
-    nextToken l = dispatchToken l' := by
-  unfold nextToken preNextToken
-  simp only [hb, Bool.false_eq_true, ↓reduceIte, h]
-
-/-- **the first token of a line** -/
-theorem nextToken_break (it : Item) (hw : it.WF) (src : Array Nat) (ity : Nat) (dn : List LineInfo) (s k pos k' d : Nat)
-    (r : List Nat) (hity : ItyOK ity k) (hpos : s + k ≤ pos) (hd : d = runeSP ∨ (d = runeLF ∧ it.tight = false))
-    (h : here (bst src ity dn s k pos) = runeLF :: (List.replicate k' runeTAB ++ (it.spelling ++ d :: r))) :
-    nextToken (bst src ity dn s k pos) =
-      (.ok (it.token (pos + 1 + k')),
-        bst src (ityAfter ity k') (dn ++ [closedLine s k pos]) (pos + 1) k' (pos + 1 + k' + it.spelling.length)) := by
-  obtain ⟨c, sp, hsp, hsolid, _, htab⟩ := spelling_head it hw
-  have hhead : (it.spelling ++ d :: r).headD 0 = c := by rw [hsp]; rfl
-  have hs := skipBlank_break src ity dn s k pos k' _ hity hpos h (by rw [hhead]; exact ⟨hsolid, htab⟩)
-  rw [nextToken_of_skipBlank _ _ rfl hs]
-  have hh : here (bst src (ityAfter ity k') (dn ++ [closedLine s k pos]) (pos + 1) k' (pos + 1 + k')) =
-      it.spelling ++ d :: r := by
-    have : here (bst src (ityAfter ity k') (dn ++ [closedLine s k pos]) (pos + 1) k' (pos + 1 + k')) =
-        (here (bst src ity dn s k pos)).drop (k' + 1) := by
-      show src.toList.drop (pos + 1 + k') = (src.toList.drop pos).drop (k' + 1)
-      rw [List.drop_drop]; congr 1; omega
-    rw [this, h, List.drop_succ_cons]
-    exact List.drop_left' (by simp)
-  rw [dispatch_item it hw _ d r hd hh]
-  rfl
-
-/-- **a token after a space**, between-tokens form -/
-theorem nextToken_bst_space (it : Item) (hw : it.WF) (src : Array Nat) (ity : Nat) (dn : List LineInfo) (s k pos d : Nat)
-    (r : List Nat) (hd : d = runeSP ∨ (d = runeLF ∧ it.tight = false))
-    (h : here (bst src ity dn s k pos) = runeSP :: (it.spelling ++ d :: r)) :
-    nextToken (bst src ity dn s k pos) =
-      (.ok (it.token (pos + 1)), bst src ity dn s k (pos + 1 + it.spelling.length)) :=
-  nextToken_space it hw _ rfl d r hd h
 
 theorem dispatch_eof (l : Lexer) (h : here l = []) : dispatchToken l = parseEOF l := by
   obtain ⟨h1, h2⟩ := here_nil h
   unfold dispatchToken
   have : ¬ l.cursor < l.src.size := by omega
   simp [h1, runeEOF, this]
-
-/-- **the end of the text**: the line feed that ends the last line, then EOF -/
-theorem nextToken_eof (src : Array Nat) (ity : Nat) (dn : List LineInfo) (s k pos : Nat)
-    (hity : ItyOK ity k) (hpos : s + k ≤ pos) (h : here (bst src ity dn s k pos) = [runeLF]) :
-    nextToken (bst src ity dn s k pos) =
-      (.ok { type := cTypeEOF, startIdx := pos + 1, endIdx := pos + 1 }, fst src ity (dn ++ [closedLine s k pos]) (pos + 1)) := by
-  have h' : here (bst src ity dn s k pos) = runeLF :: (List.replicate 0 runeTAB ++ []) := by simpa using h
-  have hs := skipBlank_break src ity dn s k pos 0 [] hity hpos h' solid_zero
-  rw [nextToken_of_skipBlank _ _ rfl hs]
-  have hsize : src.size = pos + 1 := by
-    have := congrArg List.length h
-    simp [here, bst, lx] at this; omega
-  have hh : here (bst src (ityAfter ity 0) (dn ++ [closedLine s k pos]) (pos + 1) 0 (pos + 1 + 0)) = [] := by
-    show src.toList.drop (pos + 1 + 0) = []
-    apply List.drop_eq_nil_of_le; simp; omega
-  rw [dispatch_eof _ hh]
-  unfold parseEOF
-  have hsl := sliceLastLine_bst src (ityAfter ity 0) (dn ++ [closedLine s k pos]) (pos + 1) 0 (pos + 1 + 0) (pos + 1) false
-    (hity.after 0) (by omega) (by omega)
-  have e1 : bst src (ityAfter ity 0) (dn ++ [closedLine s k pos]) (pos + 1) 0 (pos + 1 + 0) =
-      lx src (ityAfter ity 0) (dn ++ [closedLine s k pos] ++ [openLine (pos + 1) 0]) (pos + 1 + 0) false := rfl
-  rw [e1]
-  have e2 : (lx src (ityAfter ity 0) (dn ++ [closedLine s k pos] ++ [openLine (pos + 1) 0]) (pos + 1 + 0) false).cursor = pos + 1 := rfl
-  rw [e2, hsl]
-  rfl
-
-/-- **after the end**: `NextToken` answers EOF again and changes nothing -/
-theorem nextToken_eof_again (src : Array Nat) (ity : Nat) (dn : List LineInfo) (pos : Nat)
-    (hity : ity = cIndentTab ∨ ity = cIndentUnknown) (hsize : src.size = pos) :
-    nextToken (fst src ity dn pos) = (.ok { type := cTypeEOF, startIdx := pos, endIdx := pos }, fst src ity dn pos) := by
-  have hh : here (fst src ity dn pos) = [] := by
-    show src.toList.drop pos = []
-    apply List.drop_eq_nil_of_le; simp; omega
-  have hs : skipBlank (fst src ity dn pos) = (.ok (), fst src ity dn pos) :=
-    skipBlank_solid _ (by rw [(here_nil hh).1]; exact solid_zero.1)
-  rw [nextToken_of_skipBlank _ _ rfl hs, dispatch_eof _ hh]
-  have hstart : lastLineStart (fst src ity dn pos) = some pos := by
-    unfold fst
-    rw [lastLineStart_lx]
-    rcases hity with h | h <;> subst h <;> simp [cIndentUnknown, cIndentTab, cIndentSpace, closedLine]
-  unfold parseEOF sliceLastLine
-  rw [hstart]
-  have hcond : (decide (pos > (fst src ity dn pos).cursor) || decide ((fst src ity dn pos).cursor > (fst src ity dn pos).src.size)) = false := by
-    simp [fst, lx]; omega
-  simp only [hcond, Bool.false_eq_true, ↓reduceIte]
-  simp only [fst, lx, List.size_toArray, List.length_append, List.length_cons, List.length_nil, Nat.zero_add,
-    Nat.add_one_sub_one, List.modify_toArray, modify_last, closedLine, Nat.add_zero]
-
-/-- **the first token of the text** -/
-theorem nextToken_first (it : Item) (hw : it.WF) (src : List Nat) (k d : Nat) (r : List Nat)
-    (hd : d = runeSP ∨ (d = runeLF ∧ it.tight = false))
-    (h : src = List.replicate k runeTAB ++ (it.spelling ++ d :: r)) :
-    nextToken (mkLexer src) =
-      (.ok (it.token k), bst src.toArray (ityAfter cIndentUnknown k) [] 0 k (k + it.spelling.length)) := by
-  obtain ⟨c, sp, hsp, hsolid, h0, htab⟩ := spelling_head it hw
-  have hsp' : c ≠ runeSP := by intro e; have := hsolid.1; rw [e] at this; revert this; decide
-  have hhead : (it.spelling ++ d :: r).headD 0 = c := by rw [hsp]; rfl
-  -- the lexer after `parseBeginLex`'s first line
-  have hl1 : ({ mkLexer src with beginLex := false } : Lexer).pushLine { indents := 0, startIdx := 0 } =
-      bst src.toArray cIndentUnknown [] 0 0 0 := rfl
-  have hhere : here (bst src.toArray cIndentUnknown [] 0 0 0) = List.replicate k runeTAB ++ (it.spelling ++ d :: r) := by
-    show src.toArray.toList.drop 0 = _
-    simp [h]
-  have hch : ({ mkLexer src with beginLex := false } : Lexer).getChar 0 = (bst src.toArray cIndentUnknown [] 0 0 0).cur := rfl
-  have hcur0 : (bst src.toArray cIndentUnknown [] 0 0 0).cur = (if k = 0 then c else runeTAB) := by
-    rw [here_headD hhere]
-    cases k with
-    | zero => simpa using hhead
-    | succ j => simp [List.replicate_succ]
-  have hbegin : parseBeginLex { mkLexer src with beginLex := false } =
-      (.ok (), bst src.toArray (ityAfter cIndentUnknown k) [] 0 k k) := by
-    unfold parseBeginLex
-    simp only [hch, hl1]
-    have hne : ((bst src.toArray cIndentUnknown [] 0 0 0).cur == runeEOF) = false := by
-      rw [hcur0]
-      by_cases hk : k = 0
-      · simp only [hk, ↓reduceIte]; simpa [runeEOF] using h0
-      · simp only [hk, ↓reduceIte]; decide
-    simp only [hne, Bool.false_eq_true, ↓reduceIte]
-    by_cases hk : k = 0
-    · subst hk
-      have : ((bst src.toArray cIndentUnknown [] 0 0 0).cur == runeTAB || (bst src.toArray cIndentUnknown [] 0 0 0).cur == runeSP) = false := by
-        rw [hcur0]; simp [htab, hsp']
-      simp only [this, Bool.false_eq_true, ↓reduceIte]
-      rfl
-    · have hc : (bst src.toArray cIndentUnknown [] 0 0 0).cur = runeTAB := by rw [hcur0]; simp [hk]
-      rw [hc]
-      have : (runeTAB == runeTAB || runeTAB == runeSP) = true := by decide
-      simp only [this, ↓reduceIte]
-      obtain ⟨j, rfl⟩ : ∃ j, k = j + 1 := ⟨k - 1, by omega⟩
-      have hrest : (bst src.toArray cIndentUnknown [] 0 0 0).rest = List.replicate j runeTAB ++ (it.spelling ++ d :: r) := by
-        have : here (bst src.toArray cIndentUnknown [] 0 0 0) = runeTAB :: (List.replicate j runeTAB ++ (it.spelling ++ d :: r)) := by
-          rw [hhere]; simp [List.replicate_succ]
-        exact (here_cons this).2
-      rw [countSame_tabs j _ 1 _ hrest (by rw [hhead]; exact htab)]
-      have hset := setIndentType_tabs ((bst src.toArray cIndentUnknown [] 0 0 0).setCursor
-        ((bst src.toArray cIndentUnknown [] 0 0 0).cursor + 1 + j)) (1 + j) c (Or.inr rfl) ⟨htab, hsp'⟩
-      have hk1 : (1 + j = 0) = False := by simp
-      simp only [hk1, ↓reduceIte] at hset
-      rw [hset]
-      dsimp only
-      congr 1
-      simp [bst, lx, Lexer.setCursor, openLine, ityAfter, Nat.add_comm]
-  have hsolid' : Solid (bst src.toArray (ityAfter cIndentUnknown k) [] 0 k k).cur := by
-    have hh : here (bst src.toArray (ityAfter cIndentUnknown k) [] 0 k k) = it.spelling ++ d :: r := by
-      show src.toArray.toList.drop k = _
-      simp only [h]
-      exact List.drop_left' (by simp)
-    rw [here_headD hh, hhead]; exact hsolid
-  have hpre : preNextToken (mkLexer src) = (.ok (), bst src.toArray (ityAfter cIndentUnknown k) [] 0 k k) := by
-    unfold preNextToken
-    have : (mkLexer src).beginLex = true := rfl
-    simp only [this, ↓reduceIte, hbegin]
-    exact skipBlank_solid _ hsolid'
-  unfold nextToken
-  simp only [hpre]
-  have hh : here (bst src.toArray (ityAfter cIndentUnknown k) [] 0 k k) = it.spelling ++ d :: r := by
-    show src.toArray.toList.drop k = _
-    simp only [h]
-    exact List.drop_left' (by simp)
-  rw [dispatch_item it hw _ d r hd hh]
-  rfl
 
 end ZnVerif.Proofs.RenderLex
